@@ -490,11 +490,31 @@ func checkC06(c *chk.Ctx) {
 		}
 	}
 	c.Infof("instrument (jsonschema, Draft 2020-12, all keywords): %d bodies against the operation schemas as emitted, %d invalid", len(jobs), nInvalid)
+	// ---- the parameter half: values the real clients put into URLs against the declared parameter schemas
+	plines, plabels := paramValuesCheck(c, set)
+	firstParam := len(lines)
+	for range plines {
+		owner = append(owner, -2)
+	}
+	lines = append(lines, plines...)
+	evals += len(plines)
 	r := runInventory(c, "Trace_OpenApi", "Trace_OpenApi.cfg", lines, map[string]string{"Enforce": `{"C06"}`})
 	accepted, bad := 0, 0
 	table := map[string]int{}
 	for ln, v := range r.Verdicts {
 		ci := owner[ln-1]
+		if ci == -2 {
+			if v.OK {
+				accepted++
+				continue
+			}
+			bad++
+			if bad <= 25 {
+				rp := c.WriteReplay(map[string]any{"property": c.ID, "spec": "Trace_OpenApi", "part": "parameters", "verdict": v.How, "param": json.RawMessage(lines[ln-1]), "seed": c.Seed})
+				c.Violation(rp, fmt.Sprintf("%s: %s", plabels[ln-1-firstParam], v.How))
+			}
+			continue
+		}
 		if ci < 0 {
 			continue
 		}
